@@ -28,6 +28,8 @@ const (
 	vpSweepGrabbed
 	vpSweepKey
 	vpSweepChecked
+	vpSetBeforeExit
+	vpDelBeforeExit
 )
 
 // Exported names of the hook points.
@@ -46,6 +48,8 @@ const (
 	VPSweepGrabbed       = vpSweepGrabbed
 	VPSweepKey           = vpSweepKey
 	VPSweepChecked       = vpSweepChecked
+	VPSetBeforeExit      = vpSetBeforeExit
+	VPDelBeforeExit      = vpDelBeforeExit
 )
 
 // VerifHook receives every hook point. owner identifies the cache (it is the
